@@ -121,7 +121,12 @@ func (b *bleveIndex) Search(terms []string) ([]string, error) {
 	}
 
 	query := bleve.NewQueryStringQuery(strings.Join(quoted, " "))
-	search := bleve.NewSearchRequest(query)
+	// NewSearchRequest asks for the first 10 hits only: ask for as many as there are documents
+	count, err := b.index.DocCount()
+	if err != nil {
+		return nil, err
+	}
+	search := bleve.NewSearchRequestOptions(query, int(count), 0, false)
 
 	res, err := b.index.Search(search)
 	if err != nil {
